@@ -1,4 +1,7 @@
+import FrappyModel.Generated.C16
 import FrappyModel.Generated.C20
 import FrappyModel.Node.Logging
 import FrappyModel.Small.Rotate
+import FrappyModel.Spec.C16
 import FrappyModel.Spec.C20
+import FrappyModel.Timed.Comm
